@@ -1,5 +1,6 @@
 import NrDaemon.Driver.Core
 import NrDaemon.Model.Json
+import NrDaemon.Gen.Limits
 /-! Engine `json`: the hand-written encoders and the concatenating payload builders. -/
 
 def hexOr (s : String) : JBytes := (parseHex s).getD []
@@ -18,6 +19,11 @@ def hexList (s : String) : List JBytes := if s == "-" || s == "" then [] else (s
 def jsonStep (t : Tokens) (impl : Option String) : StepOut :=
   let implToks := (impl.map tokenize).getD []
   let validFail := if kvGet implToks "valid" == some "0" then ["C08 payload: the bytes produced are not valid JSON (encoding/json.Valid)"] else []
+  let shapeOut (model : String) (what : String) : StepOut :=
+    { model := model, specFails := validFail ++ (match impl with
+        | some line => if line == model || kvGet implToks "valid" == some "0" then [] else
+            [s!"C08 payload: the {what} payload is not of the shape its endpoint expects ({line}, expected {model})"]
+        | none => []) }
   match tokStr t 1 with
   | "str" =>
     { model := toHex (appendString (hexOr (tokStr t 2))) ++ " valid=1", specFails := validFail }
@@ -44,6 +50,23 @@ def jsonStep (t : Tokens) (impl : Option String) : StepOut :=
         | _ => bs "{}"
     { model := toHex (logPayload labels (hexList (tokStr t 3))) ++ " valid=1", specFails := validFail }
   | "pkgs" => { model := toHex (packagesPayload (hexOr (tokStr t 2))) ++ " valid=1", specFails := validFail }
+  -- payloads the code builds with encoding/json: the container decides how many entries there are (capacities 1/10/20
+  -- traces by kind, 20 errors, 10 statements), the body must be valid JSON of the documented outer shape
+  | "traces" =>
+    let spec := tokStr t 3
+    let kinds := if spec == "-" || spec == "" then [] else (spec.splitOn ",").map (fun e => (e.splitOn ":").headD "")
+    let cnt := fun (k : String) (cap : Nat) => Nat.min (kinds.filter (· == k)).length cap
+    let n := cnt "r" Gen.Limits.MaxRegularTraces + cnt "f" Gen.Limits.MaxForcePersistTraces + cnt "s" Gen.Limits.MaxSyntheticsTraces
+    shapeOut s!"n={n} valid=1" "transaction_sample_data"
+  | "errors" =>
+    let spec := tokStr t 3
+    let k := if spec == "-" || spec == "" then 0 else (spec.splitOn ",").length
+    shapeOut s!"n={Nat.min k Gen.Limits.MaxErrors} valid=1" "error_data"
+  | "slowsqls" =>
+    let spec := tokStr t 2
+    let ids := if spec == "-" || spec == "" then [] else (spec.splitOn ",").map (fun e => (e.splitOn ":").headD "")
+    shapeOut s!"n={Nat.min ids.eraseDups.length Gen.Limits.MaxSlowSQLs} valid=1" "sql_trace_data"
+  | "connect" => shapeOut "n=1 valid=1" "connect"
   | "filterpkgs" =>
     let pairs := (if tokStr t 2 == "-" then [] else (tokStr t 2).splitOn ",").filterMap (fun e => match e.splitOn ":" with
       | [n, v] => some (hexOr n, hexOr v)
